@@ -457,6 +457,38 @@ pub fn gen_c02_public(out: &mut impl Write, r: &mut Rng, thorough: bool) {
 
 pub fn gen_c03_public(out: &mut impl Write, r: &mut Rng, thorough: bool) {
     let lens: Vec<usize> = if thorough { vec![0, 1, 2, 31, 32, 33, 100, 127, 128, 129, 1000, 5000] } else { vec![0, 1, 33, 100] };
+    // P-384 signing keys with boundary scalars (1, n - 1, leading zero bytes, top bit set): signatures byte-exact (RFC 6979) on
+    // paseto-v3, verified by the model and by the sibling, twins accepted
+    {
+        const N: [u8; 48] = [
+            0xff, 0xff, 0xff, 0xff, 0xff, 0xff, 0xff, 0xff, 0xff, 0xff, 0xff, 0xff, 0xff, 0xff, 0xff, 0xff, 0xff, 0xff, 0xff, 0xff, 0xff, 0xff, 0xff, 0xff,
+            0xc7, 0x63, 0x4d, 0x81, 0xf4, 0x37, 0x2d, 0xdf, 0x58, 0x1a, 0x0d, 0xb2, 0x48, 0xb0, 0xa7, 0x7a, 0xec, 0xec, 0x19, 0x6a, 0xcc, 0xc5, 0x29, 0x73,
+        ];
+        let mut scalars: Vec<Vec<u8>> = vec![];
+        let mut one = vec![0u8; 48]; one[47] = 1; scalars.push(one);
+        let mut nm1 = N.to_vec(); nm1[47] -= 1; scalars.push(nm1);
+        let mut lz = r.bytes(48); lz[0] = 0; lz[1] = 0; scalars.push(lz);
+        let mut hi = r.bytes(48); hi[0] = 0xfe; scalars.push(hi);
+        for sk in &scalars {
+            for be in [Be::V3, Be::V3Lc] {
+                let pk = public_of(be, sk);
+                let msg = r.pattern(40);
+                let rnd = r.bytes(48);
+                if be == Be::V3 {
+                    writeln!(out, "pub.sign v3 {} {} - - {}", hex(sk), hex(&msg), hex(&rnd)).unwrap();
+                }
+                writeln!(out, "o.keypair {} {}", be.name(), hex(sk)).unwrap();
+                if let Some(tok) = sign_own(be, sk, &msg, &[], &[]) {
+                    emit_popen(out, Be::V3, &pk, &tok, &[], &format!("ok:{}", hex(&msg)));
+                    emit_popen(out, Be::V3Lc, &pk, &tok, &[], &format!("ok:{}", hex(&msg)));
+                    if let Some(twin) = p384_twin(&tok) {
+                        emit_popen(out, Be::V3, &pk, &twin, &[], &format!("ok:{}", hex(&msg)));
+                        emit_popen(out, Be::V3Lc, &pk, &twin, &[], &format!("ok:{}", hex(&msg)));
+                    }
+                }
+            }
+        }
+    }
     for be in ALL_BE {
         let sk = gen_secret(be);
         let pk = public_of(be, &sk);
